@@ -20,6 +20,10 @@ func init() { Registry["C04"] = Check{Level: "model_checking", Fn: runC04} }
 
 var c04Extra func(r *ev.Run)
 
+// column lists of the second pass; positions refer to the full list a, b, c, d, e, rowid
+var c04Lists = [][]string{{"rowid"}, {"a"}, {"oid", "_rowid_", "a"}, {}, {"c"}}
+var c04ColPos = map[string]int{"a": 0, "b": 1, "c": 2, "d": 3, "e": 4, "rowid": 5, "oid": 5, "_rowid_": 5}
+
 func c04Probes(rows []dbgen.Row) []int64 {
 	set := map[int64]bool{math.MinInt64: true, math.MaxInt64: true, 0: true, -1: true, 1: true}
 	for i, r := range rows {
@@ -47,7 +51,7 @@ func c04Probes(rows []dbgen.Row) []int64 {
 }
 
 func runC04(r *ev.Run) {
-	r.Rule = "every T1 table b-tree shape within bounds x 3 rowid sets x 2 layouts (separator = max of left / value in the gap) x every probe rowid {present, both neighbours, gap middle, last of gap (= separator), min64, max64, 0, -1, 1} through SelectRowid, PKSelect(alias pk) and Table.Rowid, then every probe again in descending order on the same handle; plus brim-full leaves at page sizes 512/1024/4096 (a row with one partly filled overflow page at the lowest address of a page that is full to the last byte); oracle = the builder's logical rows; non-trivial = probes on images with interior pages"
+	r.Rule = "every T1 table b-tree shape within bounds x 3 rowid sets x 2 layouts (separator = max of left / value in the gap) x every probe rowid {present, both neighbours, gap middle, last of gap (= separator), min64, max64, 0, -1, 1} through SelectRowid, PKSelect(alias pk) and Table.Rowid, each lookup also with the column lists {rowid}, {alias}, {oid, _rowid_, alias}, {} and {one stored column}, then every probe again in descending order on the same handle; plus brim-full leaves at page sizes 512/1024/4096 (a row with one partly filled overflow page at the lowest address of a page that is full to the last byte); oracle = the builder's logical rows; non-trivial = probes on images with interior pages"
 	r.Set("bounds", fmt.Sprintf("%+v", allBounds(r)))
 	cols := []string{"a", "b", "c", "d", "e", "rowid"}
 	defer func() {
@@ -128,6 +132,46 @@ func c04Image(r *ev.Run, si *ShapeImage, cols []string) {
 				r.Violation("C04:PKSelect:multiple", fmt.Sprintf("PKSelect(%d) delivers %d rows", id, len(got)), art)
 			}
 			c04Judge(r, "PKSelect", class, id, one, err, want, present, art)
+			// other column lists: what is asked for must not decide whether the row is found (rowid-only lists,
+			// the alias alone, the empty list, one stored column)
+			for _, list := range c04Lists {
+				var lw []interface{}
+				if present {
+					lw = make([]interface{}, len(list))
+					for i, c := range list {
+						lw[i] = want[c04ColPos[c]]
+					}
+				}
+				var lrow sqlittle.Row
+				var lerr error
+				if p := Safely(func() { lrow, lerr = h.SelectRowid("t1", id, list...) }); p != nil {
+					r.Violation("C04:panic", fmt.Sprintf("SelectRowid(%d, %v) panics: %v", id, list, p), art)
+					continue
+				}
+				r.Trans(1)
+				lart := map[string]interface{}{"image": si.Desc, "rowid": id, "present": present, "columns": fmt.Sprint(list)}
+				if (lrow != nil) != present && lerr == nil {
+					r.Violation("C04:SelectRowid:column-list:"+class, fmt.Sprintf("SelectRowid(%d) with columns %v: row returned=%v, rowid present=%v", id, list, lrow != nil, present), lart)
+				} else {
+					c04Judge(r, "SelectRowid:column-list", class, id, CopyRowOrNil(lrow), lerr, lw, present, lart)
+				}
+				n := 0
+				var first []interface{}
+				lerr = h.PKSelect("t1", sqlittle.Key{id}, func(rw sqlittle.Row) {
+					if n == 0 {
+						first = CopyRow(rw)
+					}
+					n++
+				}, list...)
+				r.Trans(1)
+				if lerr == nil && (n == 1) != present {
+					r.Violation("C04:PKSelect:column-list:"+class, fmt.Sprintf("PKSelect(%d) with columns %v: %d rows delivered, rowid present=%v", id, list, n, present), lart)
+				} else if n == 1 {
+					c04Judge(r, "PKSelect:column-list", class, id, first, lerr, lw, present, lart)
+				} else if lerr != nil {
+					c04Judge(r, "PKSelect:column-list", class, id, nil, lerr, lw, present, lart)
+				}
+			}
 			// low level
 			d.RLock()
 			tb, err := d.Table("t1")
